@@ -113,9 +113,34 @@ def _fold(cell):
     return sweep.fold_cell(model.project(), cell)
 
 
+def _fold_full(cell):
+    from .. import model
+
+    return sweep.fold_cell(model.project(), cell, weights="full")
+
+
+def weights_lattice(tier):
+    """Cells folded with the REAL electroweak weights (the main lattice keeps them opaque, which also keeps every lookup inside the coupling
+    tables - CKM rows and columns, charges by pid - out of sight): every number of active flavours, in particular six."""
+    cells = []
+    for kind, fl, (proc, proj_), (fns, nfff, nf) in itertools.product(
+        ["F2", "F3"], ["light", "total", "charm", "bottom"], [("CC", "neutrino"), ("CC", "positron"), ("NC", "electron")],
+        [("ZM-VFNS", 4, 3), ("ZM-VFNS", 4, 4), ("ZM-VFNS", 4, 5), ("ZM-VFNS", 4, 6), ("FFNS", 3, None), ("FFNS", 5, None), ("FFNS", 6, None), ("FONLL-FFNS", 4, None)]
+    ):
+        if tier == "quick" and proj_ == "positron" and fns != "ZM-VFNS":
+            continue
+        c = R.Cell(obs=f"{kind}_{fl}", process=proc, fns=fns, nfff=nfff, nf=nf, pto=1, projectile=proj_, ren_sv=False, fact_sv=False)
+        c.full_weights = True
+        cells.append(c)
+    return cells
+
+
 def check_lattice(rep, proj, tier):
     cells = lattice(proj, tier)
     outs = sweep.run_cells(_fold, cells)
+    wcells = weights_lattice(tier)
+    wouts = sweep.run_cells(_fold_full, wcells)
+    outs = list(outs) + list(wouts)
     groups = {}
     counts = dict(ok=0, rejected=0, internal=0, undecided=0)
     rejections = {}
